@@ -58,7 +58,7 @@ func (txEngine) Generate(prop string, r *simrt.RNG, tier string, run int) *simrt
 		case 2:
 			// peer block on the current tip: I=[poison kind (0 none,1 replay,2 bad-set), salt, ntx]
 			nonce += 10
-			sc.Ops = append(sc.Ops, simrt.Op{K: "peerblk", I: []int64{int64(r.Weighted(3, 2, 2)), int64(r.Intn(1000)), int64(r.Range(1, 3)), nonce}})
+			sc.Ops = append(sc.Ops, simrt.Op{K: "peerblk", I: []int64{int64(r.Weighted(3, 2, 2, 2)), int64(r.Intn(1000)), int64(r.Range(1, 3)), nonce}})
 		case 3:
 			// heavier sibling branch from depth d below the tip: I=[depth, len, poison, salt, nonce]
 			nonce += 20
@@ -324,6 +324,13 @@ func (txEngine) run(ctx *simrt.Ctx) *simrt.Violation {
 				txs = append(txs, b.Block.Txs[int(op.Int(1))%len(b.Block.Txs)])
 				ctx.Probe("offered_bad")
 				ctx.Probe("peer_block_with_replay")
+			} else if poison == 3 && len(txs) > 0 { // the same transaction twice inside this block
+				src := int(op.Int(1)) % len(txs)
+				dup := types.Clone(txs[src]).(*types.Transaction)
+				at := int(op.Int(1)/7) % (len(txs) + 1)
+				txs = append(txs[:at:at], append([]*types.Transaction{dup}, txs[at:]...)...)
+				ctx.Probe("offered_bad")
+				ctx.Probe("peer_block_with_inner_duplicate")
 			} else if poison == 2 {
 				k := []int{txExpHeight, txExpTime, txBadSig, txWrongChain, txHeightOut}[int(op.Int(1))%5]
 				txs = append(txs, mkTx(k, int(op.Int(1))%NAccounts, int(op.Int(1)+1)%NAccounts, 3, op.Int(3)+9, op.Int(1)))
